@@ -782,6 +782,10 @@ func (c *Compiler) writeNode(node, parent *node, recv, v, vsrc string, depth int
 			// Loop magic.
 			c.wl("for k := range ", c.fmtV(node, v), " {")
 			c.wl("if l.RequireKey() {")
+			if node.mapk.ptr {
+				// A nil pointer is a legitimate key: there is nothing to render for it.
+				c.wl("if k == nil { *buf = (*buf)[:0] } else {")
+			}
 			switch node.mapk.typn {
 			case "string", "[]byte":
 				c.wl("*buf = append((*buf)[:0], ", c.fmtVnb(node.mapk, "k", depth+1), "...)")
@@ -797,6 +801,9 @@ func (c *Compiler) writeNode(node, parent *node, recv, v, vsrc string, depth int
 				c.regImport([]string{`"github.com/koykov/x2bytes"`})
 				c.wl("*buf, err = x2bytes.AnyToBytes(*buf[:0], k)")
 				c.wl("if err != nil { return }")
+			}
+			if node.mapk.ptr {
+				c.wl("}")
 			}
 			c.wl("l.SetKey(buf, &inspector.StaticInspector{})")
 			c.wl("}")
